@@ -38,6 +38,13 @@ CHECKS = {
              "received the same mutators without any read; after do_fit value-type observables are also compared with a fresh fit SET to the fitted parameters (nothing pinned).",
         note="Trusted: TLC, harness/fitgraph.py (export + meaning table), harness/adapters/fitcache.py, harness/fitlib.py (catalogue of small fits, comparators with sigma-relative post-fit tolerances). "
              "Excluded: singular total covariance (as the property states), data replacement while model-referenced sources exist (known finding)."),
+    "C08": dict(
+        category="model_checking", design_ref="DESIGN.md 4.4, 5/C08",
+        technique="TLA+ spec Minimizer.tla (two copies of the parameter vector, temporary fixes, save/load state, caches; every post-fit query written as the sequence of primitive steps each backend performs) model-checked with TLC; the query sequences are replayed on real fits with a before/after snapshot per query",
+        text="TLC checks QueryDoesNotMove, CopiesAgree, NoTemporaryFixLeft and FixedUntouched over all sequences (with repetition) of covariance / asymmetric-error / profile (plain and with confidence-level bounds) / "
+             "contour / report-and-save queries on fits with user-fixed and limited parameters, for the iminuit and the scipy adapter. Each generated sequence is executed on a real three-parameter fit: after every query "
+             "the parameter values (both the minimizer's and the model's copy), cost, symmetric uncertainties, did_fit and the fixed/limited sets must be unchanged up to the minimizer tolerance, and a repeated question must give the same answer.",
+        note="Trusted: TLC, harness/adapters/minimizer.py (thresholds: 0.02 sigma, 1e-3 cost, 5 % uncertainties, 3 % repeated answers). Queries are only issued while no mutator was called since the last do_fit (the scope of the statement). The value classes of the model are abstract (optimum / displaced / conditional optimum)."),
 }
 NOT_APPLICABLE = {
     "C16": "Pure real-valued special-function identity (chi2 CDF and its inverse): no state or transitions, and TLC has neither reals nor exp; "
